@@ -223,7 +223,7 @@ func registry() map[string]PropSpec {
 			{Pkg: "jwkutil", Name: "c18_loadkey", Quick: map[string]int{"keys": 2}, Thorough: map[string]int{"keys": 3}, Unwind: [2]int{24, 24},
 				What: "LoadKey (file reading and jwk.Parse stubbed to return the abstract set) on key sets of <= keys keys with symbolic ids and a symbolic requested id: requested or only key, refusal of ambiguous, absent and invalid keys"},
 			{Pkg: "jwkutil", Name: "c18_reload", Quick: map[string]int{"loads": 2}, Thorough: map[string]int{"loads": 3}, Unwind: [2]int{24, 24},
-				What: "histories of `loads` LoadKey calls in one process (package-level state symbolically carried from call to call; sync.Map modelled as an association list, RFC 7638 thumbprints as an injective function of key type and material): each file holds one key of type OKP/EC/RSA whose material is either that of an earlier key or fresh, with its own algorithm declaration (approved, other signature algorithms, symmetric, or none), key id and requested id; every load is accepted exactly when that key alone would be"},
+				What: "histories of `loads` LoadKey calls in one process (package-level state symbolically carried from call to call; sync.Map modelled as an association list, RFC 7638 thumbprints as an injective function of key type and material): each file holds one key of type OKP/EC/RSA whose material is either that of an earlier key or fresh, with its own algorithm declaration (approved, other signature algorithms, symmetric, or none), key id and requested id, optionally preceded by a NewKeyPair request for an unsupported algorithm (which must be refused and have no effect; slice capacity and aliasing of package-level tables are modelled); every load is accepted exactly when that key alone would be"},
 		},
 		Outside: []string{
 			"NewKeyPair (crypto/rand, RSA/EC/Ed25519 generation) and `what one key signs verifies with its public half and no other` (real cryptography): not encodable; not claimed",
@@ -285,12 +285,15 @@ func registry() map[string]PropSpec {
 	add(PropSpec{
 		ID: "C13",
 		Harnesses: []HSpec{
-			{Pkg: ".", Name: "c13_steps", Quick: map[string]int{"entries": 2, "depth": 0}, Thorough: map[string]int{"entries": 3, "depth": 0}, Unwind: [2]int{64, 64}, Budget: [2]int{120, 1500},
+			{Pkg: ".", Name: "c13_steps", Quick: map[string]int{"entries": 2, "depth": 0}, Thorough: map[string]int{"entries": 3, "depth": 0}, Unwind: [2]int{64, 64}, Budget: [2]int{120, 6000},
 				Models: []string{"net/url.Parse=vpModelURLParse", "path.Join=vpModelPathJoin"},
 				What:   "ordered.Unmarshal into Pipeline (Pipeline/Steps/GroupStep.UnmarshalOrdered, unmarshalStep, stepFromMap, the reflective unmarshaler) on decoded documents whose step sequence mixes valid and invalid scalars, well-formed maps of every kind, ill-typed and unknown-type maps, ints, nulls and groups; top level bare list / mapping / steps null / steps absent: no panic; a usable result is complete, ordered, non-nil, falls back verbatim with one warning leaf per fallback, and marshals to JSON"},
 			{Pkg: ".", Name: "c13_steps", Quick: map[string]int{"entries": 1, "depth": 1}, Thorough: map[string]int{"entries": 2, "depth": 1}, Unwind: [2]int{64, 64}, Budget: [2]int{120, 1500},
 				Models: []string{"net/url.Parse=vpModelURLParse", "path.Join=vpModelPathJoin"},
 				What:   "same with groups holding up to two children of every kind (recursion into groups, failures absorbed by the enclosing step)"},
+			{Pkg: ".", Name: "c13_long", Quick: map[string]int{"max": 24}, Thorough: map[string]int{"max": 96}, Unwind: [2]int{256, 512}, Budget: [2]int{120, 1500},
+				Models: []string{"net/url.Parse=vpModelURLParse", "path.Join=vpModelPathJoin"},
+				What:   "long step lists (top level or inside a group) of identical unknown-kind, malformed-field or command entries at boundary sizes: every size c-1, c, c+1 for the integer constants 2 < c <= max that occur in the current SSA of steps.go, step_group.go, step.go, parser.go and pipeline.go, and max itself: one step per entry, expected kinds, one warning leaf per fallback, JSON marshalling succeeds"},
 		},
 		Outside: []string{
 			"`for any byte sequence ... bounded time ... never panics` through yaml.v3's scanner/parser/resolver (about 10 kLoC of third-party byte-level code) - a hand-written SSA->SMT executor cannot run it symbolically; this half of C13 is not claimed",
